@@ -104,6 +104,7 @@ MODEL_MUTANTS = [
     ('DlisModel.tla', 'IF i \\in mine /\\ items[i].origin = NoOrigin', 'IF items[i].origin = NoOrigin', 'DlisModel.tla', 'MC_DlisModel_quick.cfg', 'OriginResolves'),
     ('DlisModel.tla', 'ELSE reg\' = reg1 /\\ items\' = items', 'ELSE reg\' = reg1 /\\ items\' = Append(items, it)', 'DlisModel.tla', 'MC_DlisModel_quick.cfg', 'RejectedIsNoOp'),
     ('DlisModel.tla', 'hc\' = [flag |-> hc.stack[Len(hc.stack)], stack', 'hc\' = [flag |-> (IF byexc THEN TRUE ELSE hc.stack[Len(hc.stack)]), stack', 'DlisModel.tla', 'MC_DlisModel_quick.cfg', 'FlagDiscipline'),
+    ('DlisModel.tla', 'Announced == SumLen(view)', 'Announced == Len(items)', 'DlisModel.tla', 'MC_DlisModel_quick.cfg', 'ProgressTotalCovers'),
     ('DataSource.tla', 'ChunkRows(start, stop) == [k \\in 1..(stop - start) |-> from + start + k - 1]',
      'ChunkRows(start, stop) == [k \\in 1..(stop - start) |-> (IF kind = "fast" THEN 0 ELSE from) + start + k - 1]', 'DataSource.tla', 'MC_DataSource_quick.cfg', 'InOrder'),
     ('AttrEncoder.tla', 'hasVal  == ~(stored.list /\\ stored.n = 0)', 'hasVal  == TRUE', 'AttrEncoder.tla', 'MC_AttrEncoder.cfg', 'GrammarOk'),
